@@ -21,6 +21,19 @@ def prop(pid, level, rule, sizes, technique, level_text, level_note, assumptions
     d = dict(level=level, rule=rule, assumptions=assumptions if assumptions is not None else COMMON_ASSUMPTIONS)
     d.update(sizes)
     d.update(extra)
+    # supplementary sanitizer shards (DESIGN 10.7). AddressSanitizer: thorough tier of every property, quick tier where `asan_quick` is set.
+    # ThreadSanitizer: the properties with real threads (`tsan=` shards). Miri: the properties whose workload is pure Rust (`miri=` shards).
+    q = d["quick"]
+    d.setdefault("asan", {})
+    d["asan"].setdefault("thorough", {"shards": 4, "budget": max(1, q["budget"])})
+    if d.get("asan_quick"):
+        d["asan"].setdefault("quick", {"shards": d["asan_quick"], "budget": max(1, q["budget"] // 4)})
+    if isinstance(d.get("tsan"), int):
+        n = d["tsan"]
+        d["tsan"] = {"quick": {"shards": n, "budget": max(1, q["budget"] // 2)}, "thorough": {"shards": 2 * n, "budget": q["budget"]}}
+    if isinstance(d.get("miri"), int):
+        n = d["miri"]
+        d["miri"] = {"thorough": {"shards": n, "budget": max(1, q["budget"] // 100), "time_cap": 240}}
     PROPS[pid] = d
     MANIFEST_TEXT[pid] = dict(technique=technique, level_text=level_text, level_note=level_note)
 
@@ -37,6 +50,7 @@ prop(
 
 prop(
     "C14", "exploration",
+    miri=8,
     rule="one evaluation = one call of verify_tau / verify_total_difficulty judged against the constructed history (completeness), a must-reject class, "
          "the interval/shift metamorphic relations, or no-abort; a cell = (oracle part, trend class, epoch-switch class)",
     sizes=tiers(16, 300, 60, 16, 20000, 900, min_evals=20000, min_cells=20),
@@ -50,6 +64,7 @@ prop(
 
 prop(
     "C15", "exploration",
+    miri=8,
     rule="one evaluation = one request built by the real builders (build_prove_request_content / _from_genesis / sample_blocks) or emitted by the client in a world scenario, judged clause by clause against ground truth; "
          "a cell = (builder branch, gap class relative to last-N, last-N, difficulty magnitude class, direction)",
     sizes=tiers(16, 24000, 60, 16, 400000, 900, min_evals=20000, min_cells=30),
@@ -60,7 +75,7 @@ prop(
 
 prop(
     "C13", "exploration",
-    memcheck=3,
+    memcheck=3, asan_quick=2,
     rule="one evaluation = one complete paged query (all pages followed through last_cursor) compared with the list computed from an independent decoding of the raw key-value dump; "
          "a cell = (query kind, order/grouping, filter kinds, paging class, search kind exact/prefix/longer/wrong-type)",
     sizes=tiers(16, 12000, 60, 16, 200000, 900, min_evals=10000, min_cells=40),
@@ -93,7 +108,7 @@ prop(
 
 prop(
     "C10", "exploration",
-    memcheck=40,
+    memcheck=40, asan_quick=2,
     rule="one evaluation = one handler invocation (message or timer) wrapped in catch_unwind with overflow checks on; a cell = (message kind, peer state at delivery, generator class, outcome ok/ban/PANIC)",
     sizes=tiers(16, 360, 60, 16, 8000, 900, min_evals=20000, min_cells=150),
     technique="runtime monitoring: seeded state-aware grammar + boundary-value mutation of live honest answers + truncation / bit-flip / random-byte fuzzing at the received() boundary, panic capture, overflow-checking build, shard exit status",
@@ -139,7 +154,7 @@ prop(
 
 prop(
     "C17", "fault_enumeration",
-    memcheck=1,
+    memcheck=1, asan_quick=2, tsan=2,
     rule="one evaluation = one pause-point experiment on real threads: operation A is parked before its k-th storage write, operation B runs on another thread, A is released, and the final state "
          "(script set with numbers, filter progress, persisted and in-memory matched blocks, index digest) is compared with the two serial outcomes computed on replays of the same S0; "
          "every ordered pair of {set_scripts all / partial / delete, BlockFilters processing, SendBlock completing a batch, SendLastStateProof with a reorg section (fork rollback)} x every write boundary k of A is run; a cell = (A, B, k, B finished while A parked?, lock free at the pause?, serial order matched). Reader clause: one evaluation = one reader experiment: a thread runs one paged query (get_cells asc/desc, get_transactions asc/desc/grouped with and without filter.script, get_cells_capacity) and is parked at a read-side pause point (first / middle / last visited index entry, or right before the tip is read) while a complete writer sequence (growth indexed through the real handlers, whole-network fork switch with index rollback, or both) runs on the main thread; the query evaluated at every storage write of the writer gives the point-in-time states S_0..S_W, the released reader must return one of them and must not panic; a cell = (query, writer, park position, which state the answer equals)",
